@@ -22,7 +22,7 @@ pub fn len_near(b: u64, maxk: u64) -> BoxedStrategy<u64> {
 pub fn content(b: u64, max_blocks: u64, max_bytes: u64) -> BoxedStrategy<Content> {
     let cap = std::cmp::max(1, std::cmp::min(max_bytes, b.saturating_mul(max_blocks)));
     let maxk = std::cmp::max(1, std::cmp::min(6, cap / std::cmp::max(1, b)));
-    let seg = (prop_oneof![5 => Just(0u8), 3 => Just(1u8), 1 => Just(2u8)], len_near(b, maxk), 0u8..8, prop_oneof![2 => Just(0u64), 1 => Just(4096u64), 1 => Just(65536u64)]);
+    let seg = (prop_oneof![5 => Just(0u8), 3 => Just(1u8), 1 => Just(2u8), 1 => Just(3u8)], len_near(b, maxk), 0u8..8, prop_oneof![2 => Just(0u64), 1 => Just(4096u64), 1 => Just(65536u64)]);
     (prop::collection::vec(seg, 1..5), any::<bool>())
         .prop_map(move |(segs, sync)| {
             let mut out = vec![];
@@ -43,7 +43,9 @@ pub fn content(b: u64, max_blocks: u64, max_bytes: u64) -> BoxedStrategy<Content
                 out.push(match kind {
                     0 => Seg::Data(len, seed),
                     1 => Seg::Hole(len),
-                    _ => Seg::Zero(len),
+                    2 => Seg::Zero(len),
+                    // preallocated range, partly written (unwritten-extent bookkeeping of the filesystem)
+                    _ => Seg::PreData(len, std::cmp::max(1, len / (1 + seed as u64 % 3)), seed),
                 });
             }
             Content { segs: out, sync }
